@@ -172,6 +172,12 @@ def run(tier, seed):
                 ck.fail('trace output contradicts the property', rp | {'first_difference': k, 'expected': spec[k:k + 2], 'actual': real[k:k + 2]}, 'trace_lines')
             if real != model:
                 ck.disagree('parse_trace_data differs from model', rp | {'impl': real[:8], 'model': model[:8]})
+        # ---- a string file that is rewritten between two decodes in one process
+        synth = [pth for nm, pth in loader_files if nm.startswith('synth') and os.path.exists(pth)]
+        import struct as _st
+        ent = lambda h, seq: (_st.pack('>IHHIHH', 0x11223344, 8 + 4, 0x4654, h, 77, 4) + b'\0\0\0\x2a' + _st.pack('>I', 28))[:28]
+        tdata = b'\x01\x20\x01\x42' + b'INFO'.ljust(16, b'\0') + _st.pack('>III', 32 + 2 * 28, 1, 0) + ent(12345, 1) + ent(112345, 2)
+        iod.check_rewritten_table_file(ck, 'strs', synth, lambda pth: tr.parse_trace_data(memoryview(tdata), pth), rng, 12 if thorough else 4)
     finally:
         shutil.rmtree(tmp, ignore_errors=True)
     return ck.finish(RULE, TRUSTED, ASSUME)
